@@ -436,3 +436,143 @@ REC_ACCEPTED = {
     "jq::eval::get_value_at_path":
         "recursion stops at the first missing step (`null|getpath([range(100000)])` returns null without descending); depth bounded by the value's depth, capped at materialisation",
 }
+
+
+# ------------------------------------------------------------------------------------------
+ALIGN_OF = {"u8": 1, "i8": 1, "bool": 1, "u16": 2, "i16": 2, "u32": 4, "i32": 4, "f32": 4, "u64": 8, "i64": 8, "f64": 8, "usize": 8, "isize": 8, "u128": 16, "i128": 16}
+CAST_FNS = ("cast_slice", "cast_slice_mut", "cast_ref", "cast_mut", "from_bytes", "from_bytes_mut", "cast_vec", "cast_slice_box")
+
+
+def _align(ty):
+    t = ty.strip()
+    m = re.match(r"^\[(.*); \d+\]$", t)
+    if m:
+        return _align(m.group(1))
+    return ALIGN_OF.get(t)
+
+
+def rule_align(progs, tier, name="ALIGN"):
+    """Panicking alignment-increasing bytemuck casts on caller-supplied byte slices: a call
+    `cast_slice::<A, B>` with align_of::<B>() > align_of::<A>() panics
+    (TargetAlignmentGreaterAndInputNotAligned) whenever the slice does not start on a B boundary.
+    Discharged by the fallible `try_cast_slice` (not reported) or by a dominating alignment test."""
+    out = []
+    for cfg, P in progs.items():
+        res = RuleResult(name, cfg)
+        out.append(res)
+        n_calls = 0
+        for f in sorted(P.fns.values(), key=lambda f: f.id):
+            for c in f.calls:
+                if "bytemuck" not in c.name:
+                    continue
+                short = c.name.rsplit("::", 1)[-1]
+                n_calls += 1
+                if short.startswith("try_") or short.startswith("pod_read_unaligned"):
+                    res.ok({"site": f.id, "call": short, "types": c.gargs, "verdict": "fallible / alignment-free form"})
+                    continue
+                if short not in CAST_FNS or len(c.gargs) < 2:
+                    res.ok({"site": f.id, "call": short, "types": c.gargs, "verdict": "not an alignment-sensitive cast"})
+                    continue
+                a, b = _align(c.gargs[0]), _align(c.gargs[1])
+                if a is None or b is None:
+                    res.bad("%s:%s:%s" % (name, f.id, short), "cannot determine alignment of %s -> %s in %s (fail closed)" % (c.gargs[0], c.gargs[1], f.id), f.loc(c.line))
+                    continue
+                if b <= a:
+                    res.ok({"site": f.id, "call": short, "types": c.gargs, "verdict": "alignment-decreasing (always safe)"})
+                    continue
+                # dominating alignment test?
+                dom = f.dominators(True).get(c.bb, set())
+                guarded = False
+                for g in f.calls:
+                    if g.bb in dom and g.bb != c.bb and ("align_offset" in g.name or "is_aligned" in g.name):
+                        guarded = True
+                if guarded:
+                    res.ok({"site": f.id, "call": short, "types": c.gargs, "verdict": "dominated by an alignment test"})
+                    continue
+                res.bad(
+                    "%s:%s:%s<%s,%s>" % (name, f.id, short, c.gargs[0], c.gargs[1]),
+                    "%s calls bytemuck::%s::<%s, %s> on its argument: panics for any slice that does not start on a %d-byte boundary" % (f.id, short, c.gargs[0], c.gargs[1], b),
+                    f.loc(c.line),
+                )
+        if n_calls == 0:
+            res.bad("%s:anchor" % name, "no bytemuck call found in the crate (anchor missing: fail closed)")
+    return out
+
+
+# ------------------------------------------------------------------------------------------
+SINKS = {
+    "str::<impl str>::repeat": 1, "slice::<impl [T]>::repeat": 1,
+    "vec::Vec::<T, A>::resize": 1, "vec::Vec::<T>::with_capacity": 0, "vec::Vec::<T, A>::with_capacity_in": 0,
+    "string::String::with_capacity": 0, "vec::from_elem": 1, "vec::Vec::<T, A>::reserve": 1, "vec::Vec::<T, A>::reserve_exact": 1,
+    "string::String::reserve": 1, "string::String::reserve_exact": 1,
+}
+
+
+def rule_alloc(progs, tier, scope=r"^jq::", name="ALLOC"):
+    """Allocation sizes derived from runtime numbers must be refused before allocating: taint
+    sources are float->int casts and payloads of jq integers; sinks are the size arguments of
+    repeat / resize / with_capacity / from_elem / reserve.  A sink is discharged when a
+    try_reserve* / checked_* / comparison against a bound dominates it on the tainted value."""
+    out = []
+    for cfg, P in progs.items():
+        res = RuleResult(name, cfg)
+        out.append(res)
+        n_sinks = 0
+        for f in sorted(P.fns.values(), key=lambda f: f.id):
+            if not re.search(scope, f.id):
+                continue
+            for c in f.calls:
+                sink = None
+                for sname, argi in SINKS.items():
+                    if c.name.endswith(sname):
+                        sink = (sname, argi)
+                if sink is None or sink[1] >= len(c.args):
+                    continue
+                a = c.args[sink[1]]
+                pl = op_place(a)
+                if pl is None:
+                    continue
+                sl = backward_slice(f, pl[0], max_nodes=80)
+                tainted = "FloatToInt" in sl.casts or any(re.search(r"NumberRepr|as_i64|as_f64|to_usize|as_u64", cn or "") for _, cn in sl.calls) or any(x in ("n", "count", "times") and False for x in sl.names)
+                # payload of an Int variant: a downcast field read of OwnedValue::Int / NumberRepr::Int
+                defs = local_defs(f)
+                for l in sl.locals:
+                    for bi, kind, p in defs.get(l, []):
+                        if kind == "rv" and p[0] == "use":
+                            q = op_place(p[1])
+                            if q is not None and any(isinstance(e, list) and e[0] == "d" and e[1] in ("Int", "Float") for e in q[1]):
+                                tainted = True
+                if not tainted:
+                    continue
+                n_sinks += 1
+                dom = f.dominators(True).get(c.bb, set())
+                sanit = None
+                for g in f.calls:
+                    if g.bb in dom and g.bb != c.bb:
+                        gs = g.name.rsplit("::", 1)[-1]
+                        if gs.startswith("try_reserve") or gs.startswith("checked_") or gs in ("min", "clamp"):
+                            # must concern the same value
+                            for ga in g.args:
+                                gp = op_place(ga)
+                                if gp is not None and (gp[0] in sl.locals or backward_slice(f, gp[0], max_nodes=40).locals & sl.locals):
+                                    sanit = gs
+                if sanit is None:
+                    # a dominating comparison of the tainted value with a constant / len
+                    for t in f.blocks:
+                        pass
+                    for bi in dom:
+                        b = f.blocks[bi]
+                        if b["t"][0] != "switch":
+                            continue
+                        spl = op_place(b["t"][1])
+                        if spl is None:
+                            continue
+                        ssl = backward_slice(f, spl[0], max_nodes=25, through_calls=False)
+                        if (ssl.locals & sl.locals) and (set(ssl.binops) & {"Lt", "Le", "Gt", "Ge"}) and any("v" in k and k["v"] > 64 for k in ssl.consts):
+                            sanit = "comparison with a bound"
+                if sanit:
+                    res.ok({"site": f.id, "sink": sink[0], "sanitiser": sanit})
+                else:
+                    res.bad("%s:%s:%s" % (name, f.id, sink[0].rsplit("::", 1)[-1]), "%s passes a size derived from a runtime number to %s with no dominating try_reserve / checked_* / bound test: an absurd count aborts the process (capacity overflow panic or allocation failure)" % (f.id, sink[0]), f.loc(c.line))
+        res.ok({"tainted_sinks": n_sinks})
+    return out
